@@ -20,6 +20,8 @@ CLAIMED = {
          "Proves on all paths of readChunkAt that bytes of a checksummed chunk are returned only under the CRC-equal edge (CRC over exactly the bytes read, compared with the stored word, length bounded by the buffer, legacy branch only for legacy files); shows by value-flow closure that no descriptor that can hold a .csg file is read outside ChecksumFile; shows every reader decodes and marks a block as loaded only on the err==nil edge of the checksummed read; shows writeWip writes only through the chunk writer and flushes before success. Robustness of un-checksummed decoders is not decided."),
  "C11": ("§3 C11", "static analysis: forward may/must dataflow of held mutex classes over SSA with derived lock-wrapper summaries (PAIR), lock-order graph with transitive may-acquire summaries and SCC cycle detection (LOCKORDER), must-hold checking of guarded tables propagated up the static call graph (HELD), dominance ORDER on the rotation hand-over",
          "Covers every sync.Mutex/RWMutex operation of the ingest, metadata and query packages (all packages in the thorough tier) on all control-flow paths: released on every exit, never released unheld, never re-acquired; the class-level held->acquired relation is acyclic; every access of the shared segment tables happens under the table's lock in the accessor or all callers, and insertion into the open-store table is re-checked under the write lock; a segment is made visible as rotated before it leaves the unrotated table and both snapshots are read unrotated-first. Races on unguarded fields, channel/wait-group liveness and equality with a sequential execution are not decided."),
+ "C17": ("§3 C17", "static analysis: path-based PAIR of query start/delete keyed by the qid's phi web with branch correlation, lock dataflow (PAIR/LOCKORDER) on the query tables, held-lock check at blocking channel sends, dominance-based ASSERT on the PromQL front end, producer/consumer TABLE of query states",
+         "For every function that starts a query the check shows that no return is reachable from the start's success edge without DeleteQuery for the same qid variable (direct, deferred or delegated to a goroutine that deletes on every loop exit); the query-table locks are released on all exits and acquired in an acyclic order; no blocking channel send happens while the global running-queries lock may be held; PromQL AST type assertions are checked; every query state that is sent has a handler in the coordinator loop. Parser termination, timing, admission arithmetic and other panic sources are not decided."),
 }
 
 NOT_APPLICABLE = {
